@@ -2746,6 +2746,16 @@ fn convert_number_to_type2<'a>(
             extended: None,
           },
         })?;
+        // A literal beyond the binary64 range has no representable value
+        if !val.is_finite() {
+          return Err(Error::PARSER {
+            position: pest_span_to_position(&inner.as_span(), input),
+            msg: ErrorMsg {
+              short: "Float literal out of range".to_string(),
+              extended: None,
+            },
+          });
+        }
         return Ok(ast::Type2::FloatValue { value: val, span });
       }
       Rule::hexfloat => {
@@ -2815,6 +2825,14 @@ fn convert_number_to_type2<'a>(
             extended: None,
           },
         })?;
+        if !val.is_finite() {
+          return Err(Error::PARSER {
+            msg: ErrorMsg {
+              short: "Float literal out of range".to_string(),
+              extended: None,
+            },
+          });
+        }
         return Ok(ast::Type2::FloatValue { value: val });
       }
       Rule::hexfloat => {
